@@ -45,7 +45,7 @@ seeded changes and which check catches which in §11.
      sampling. This is the permitted "bounded check with a stated bound" for what neither verifier reaches, always
      labelled *bounded* and never counted as proved. BEC is also the replay harness and the counterexample finder when
      Verus rejects an obligation (Verus gives no model).
-* **Functions under contract — Verus units U…, complete Kani harnesses K1 / K3; the bounded K2 is described in §2.3** (each verifies on the current tree through the extractor; each was shown
+* **Functions under contract — Verus units U…, complete Kani harnesses K1 / K3 / K5; the bounded K2 is described in §2.3** (each verifies on the current tree through the extractor; each was shown
   to reject seeded mutants in a scratch copy; none raises an alarm on 25 + 12 behaviour-preserving refactors, 16 small edits and 137 renames of locals, §8):
 
   | unit | functions of `/repo` | what is proved for all inputs | serves |
@@ -73,6 +73,7 @@ seeded changes and which check catches which in §11.
   | U23 | `optimal_fit::LineNumbers::{new, get}` (RefCell memo, rewrite R17) | terminates, no panic, returns the number of back-pointer hops — for every table of smawk's shape | C03, C06, C04 |
   | U24 | **dependency** `smawk` (version pinned by `Cargo.lock`, source read from the cargo registry): `online_column_minima`, `smawk_inner` | for every matrix callback (no monotonicity assumed): no panic (the `assert!`s of the `m!` macro, every index and subtraction), termination, the callback is called only on cells above the diagonal whose row is finished and with a well-shaped table, the result is a back-pointer table of length `size` with entry `k` pointing at a row `< k` — the contract U2 used to assume (A6) | C06, C03, C04 |
   | K1 | `core::ch_width` | `ch_width(c) <= c.len_utf8()` for all 1,112,064 scalar values (Kani, loop-free) | C10, C05, C04 |
+  | K5 | `char::is_whitespace` (std) | `'\\r'.is_whitespace()` — U9's axiom `cr_is_ws` — on the real std function (Kani, loop-free, concrete characters) | C18 |
   | K3 | `Word::width()` (`usize as f64`) and f64 `+`, `>` | `a + b < 2^53` implies `a as f64 + b as f64 == (a + b) as f64`; `a <= b` implies `!(a as f64 > b as f64)`; `0 as f64 == 0.0`; 64-bit `usize` — the A16 axioms of U17, all `usize` operands (Kani, loop-free, bit-precise) | C05 |
 
 * **Genuine defects found and repaired** (five `fix:` commits in `/repo`, §5): F1 (C02), F2 (C08), F5 (C20/C04) were
@@ -108,7 +109,7 @@ w("""## 2. Architecture
                          the chunk model of well-formed texts with the additivity of display width over them (`ansi_chunks.vrs`), UTF-8 position lemmas (`fresh.vrs`), ASCII-boundary lemmas, `lines()` byte model
   contracts/skel/        code-only skeletons (generated by `vx.py derive`; anchors for the merge only, never verified)
   tools/vx.py            lexer, extractor, rule rewriter, closure conversion, three-way annotation merge, Verus driver, obligation map
-  tools/kx.py  kani/     Kani driver (scratch copy outside /repo and /verif) and harnesses K1, K2, K3
+  tools/kx.py  kani/     Kani driver (scratch copy outside /repo and /verif) and harnesses K1, K2, K3, K5
   tools/props.py         per property: units, Kani harnesses, level, proved / bounded parts, trusted base
   tools/seedtest.py      applies seeded/<id>/patch.diff to /repo, runs the checks, undoes it -> seeded/RESULTS.json; seedreport.py -> RESULTS.md
   tools/seedpar.py       the same in parallel on scratch copies outside /repo and /verif (never touches /repo); --harmless: every check on each behaviour-preserving edit
@@ -134,7 +135,7 @@ w("""### 2.3 Back ends
   deletes the copy and its `target/`. No commit to `/repo` is needed (`MANIFEST.hooks`: no source commits; guards are the
   compiler-provided `kani` cfg and upstream's existing `--cfg fuzzing`). **K1** `ch_width(c) <= c.len_utf8()`,
   `c: char = kani::any()`, loop-free, both feature sets, with a `should_panic` reachability twin — complete; quick tier of
-  C04, C05, C10, C20 (2–10 s; it also checks that a space is one column wide, for C20). **K3** the three float facts that U17 states as axioms (A16), over symbolic `usize` operands, with the conversion taken from the real `Fragment` accessor and a `should_panic` twin that drops the 2^53 bound — complete; quick tier of C05 (≈ 80 s, almost all of it the 64-bit adder). **K2** `wrap_first_fit`, 3 fragments with quarter-integer widths < 4, two line widths < 8: U1's
+  C04, C05, C10, C20 (2–10 s; it also checks that a space is one column wide, for C20). **K3** the three float facts that U17 states as axioms (A16), over symbolic `usize` operands, with the conversion taken from the real `Fragment` accessor and a `should_panic` twin that drops the 2^53 bound — complete; quick tier of C05 (≈ 80 s, almost all of it the 64-bit adder). **K5** `'\\r'.is_whitespace()` (with `'\\n'`, `' '`, U+3000 and a non-whitespace control) on the real std function, the second std fact of U9's C18 theorem — complete; quick tier of C18 (≈ 2 s). **K2** `wrap_first_fit`, 3 fragments with quarter-integer widths < 4, two line widths < 8: U1's
   postconditions under real IEEE semantics — *bounded*, ≈ 10 min / 13 GB, thorough tier of C07. (The planned K4 for the
   SMAWK call shape was first covered by the BEC contract `A6.smawk.call_shape` on the real `smawk` crate and is now also proved in U24; the BEC contract still runs.)
 * **BEC** (`/verif/bec`, `textwrap = { path = "/repo" }`, built offline with `--cfg fuzzing`, release profile with
